@@ -22,7 +22,10 @@ Property oracles (on the implementation only, no model involved):
       user, cwd, pending rename, restart offset, transfer type, listener, data connection, workers);
   O4  the listener / data connection a session holds are its own (listener port = the port announced to it,
       data-connection peer = a socket that session's client opened);
-  O5  the backend instance of session i is only ever asked about paths inside dirs[i].
+  O5  the backend instance of session i is only ever asked about paths inside dirs[i];
+  O6  every command sent and completed in one step gets the same replies by the end of that step, at the same VIRTUAL
+      instants after the command, as in the solo run (nobody is delayed or blocked by a peer that stops reading its
+      control channel, by a session connecting, or - with per-connection speed limits - by another session's transfer).
 
 Correspondence with the extracted model (coq/Model/Multi.v):
   M0  the hypotheses of C17_isolation hold for the schedule (fn 1: solo footprints inside dirs[i], dirs
@@ -79,7 +82,7 @@ TRUSTED = [
 ASSUMPTIONS = [
     "each session sends one command at a time (ABOR excepted); different sessions are fully concurrent",
     "sessions work on disjoint pre-existing directories (the property's hypothesis, checked on every schedule by the model's run_in)",
-    "no connection limits, port pool large enough, no speed limits (shared by design: C10, C11, C15)",
+    "no connection limits, port pool large enough, no server-wide / per-user speed limits (shared by design: C10, C11, C15); per-connection limits are configured in one family",
 ]
 
 CRLF = b"\r\n"
@@ -1468,7 +1471,10 @@ def correspondence(ctx, budget=None):
         "lines; triples; (2) windows: a command of one session suspended half-way (data link held with a lowered high-water mark, upload "
         "split in two, n-th backend call gated) while the other runs a part or all of its script, is torn down / aborts / quits inside the "
         "window, or is itself suspended half-way; the suspended session itself torn down half-way. Memory backend mostly, PathIO / "
-        "AsyncPathIO on a subset, block sizes 8..256, optional port pool. Non-trivial = distinct (schedule, configuration)."
+        "AsyncPathIO on a subset, block sizes 8..256, optional port pool; (3) a peer that stops reading its CONTROL channel and pipelines "
+        "commands until its replies no longer fit the server's write buffer while the others work and a new session connects late; "
+        "(4) per-connection speed limits (of the user, of the server): same-user / other-user sessions transfer at the same time, every "
+        "reply instant on the virtual clock is compared with a time-aligned solo run. Non-trivial = distinct (schedule, configuration)."
     )
     jobs = gen_jobs(rng, thorough, budget)
     ctx.extra.setdefault("dynamic_writes", {})
